@@ -4,12 +4,12 @@ import TunnoxModel.Spec.C15
 Line protocol for C15.
 
 case  := `st <store> cas <0|1> ttl <ms> pre <n> (<kind> <id> <expMs>)* thr <n> (<inst> <nops> op*)* sch <n> (<0 tid | 1 dt | 2 tid>)*`   (2 = the storage call of this step fails)
-op    := `g <kind> <plen> <p>*` | `r <kind> <id>` | `o` (release own) | `w` (renew own)
+op    := `g <kind> <plen> <p>*` | `r <kind> <id>` | `o` (release own) | `w` (renew own) | `c` (CleanupExpired pass)
          candidate of attempt a = p[a % plen]; kind 0: p = raw 64-bit random value (id = clientCand p);
          kinds 1..3: p = the id as a number (base-|Charset| reading of the 8 random characters);
          kind 9 (node slot): candidate = NodeIDMin + a.
 obs   := event* `|` viewkey*
-event := `ok.<tid>.<kind>.<id>` | `exh.<tid>.<kind>` | `rel.<tid>.<kind>.<id>` | `relo.<tid>.<kind>.<id>` (release-own) | `rnw.<tid>.<kind>.<id>` | `nop.<tid>` | `err.<tid>` | `dead.<tid>.<kind>.<id>` (heartbeat tick without heartbeat) | `tick.<dt>`
+event := `ok.<tid>.<kind>.<id>` | `exh.<tid>.<kind>` | `rel.<tid>.<kind>.<id>` | `relo.<tid>.<kind>.<id>` (release-own) | `rnw.<tid>.<kind>.<id>` | `nop.<tid>` | `err.<tid>` | `swp.<tid>` | `dead.<tid>.<kind>.<id>` (heartbeat tick without heartbeat) | `tick.<dt>`
 ids are printed as the real code prints them (`10000002`, `pmap_AAAAAAAB`, `node-0001`).
 -/
 namespace Tunnox.Drv.C15
@@ -70,6 +70,7 @@ def renderEv : Ev → String
   | .rnw t k i => s!"rnw.{t}.{k}.{renderId k i}"
   | .nop t => s!"nop.{t}"
   | .err t => s!"err.{t}"
+  | .swp t => s!"swp.{t}"
   | .dead t k i => s!"dead.{t}.{k}.{renderId k i}"
   | .tick d => s!"tick.{d}"
 
@@ -89,6 +90,7 @@ def parseEv (tok : String) : Option Ev :=
   | ["rnw", t, k, i] => do let t ← t.toNat?; let k ← k.toNat?; let i ← parseId k i; pure (.rnw t k i)
   | ["nop", t] => do let t ← t.toNat?; pure (.nop t)
   | ["err", t] => do let t ← t.toNat?; pure (.err t)
+  | ["swp", t] => do let t ← t.toNat?; pure (.swp t)
   | ["dead", t, k, i] => do let t ← t.toNat?; let k ← k.toNat?; let i ← parseId k i; pure (.dead t k i)
   | ["tick", d] => do let d ← d.toNat?; pure (.tick d)
   | _ => none
@@ -137,6 +139,9 @@ def parseOps : Nat → List String → Option (List Op × List String)
   | n + 1, "w" :: ts => do
     let (ops, rest) ← parseOps n ts
     pure (.renewOwn :: ops, rest)
+  | n + 1, "c" :: ts => do
+    let (ops, rest) ← parseOps n ts
+    pure (.sweep :: ops, rest)
   | _, _ => none
 
 def parseThreads : Nat → List String → Option (List (Nat × List Op) × List String)
